@@ -5,7 +5,7 @@ from __future__ import annotations
 import ast
 
 from ..cfg import NORMAL, ALL, walk_local
-from ..facts import (cfg_of, call_name, calls_in, targets_of, guard_atoms,
+from ..facts import (runs_only_when, cfg_of, call_name, calls_in, targets_of, guard_atoms,
                      is_attr, is_name, enclosing, local_assigns, kwarg,
                      const_value, strip_await, resolve_local, bind_args,
                      eval_return, eval_static)
@@ -247,34 +247,65 @@ def r103(ctx) -> None:
 
 
 def r104(ctx) -> None:
-    R = ctx.rule('R10.4', 'EXPUNGE = delete(find_deleted(set or all))', 3)
+    R = ctx.rule('R10.4', 'EXPUNGE = delete(find_deleted(set or all))', 2)
     bs = ctx.proj.cls(SESS, 'BaseSession')
     f = bs.own_method('expunge_mailbox')
     if f is None:
         raise AnchorError('expunge_mailbox vanished')
     ok = False
+    fdcalls = []
     for c in calls_in(f.node, 'delete'):
         for v in resolve_local(f, c.args[0]) if c.args else []:
             v = strip_await(v)
             if isinstance(v, ast.Call) and call_name(v) == 'find_deleted' \
-                    and len(v.args) >= 2 and txt(v.args[0]) == 'uid_set' \
-                    and txt(v.args[1]) == 'selected':
+                    and len(v.args) >= 2 and txt(v.args[1]) == 'selected':
+                fdcalls.append(v)
                 ok = True
-    R.check(ok, f, f.node, 'expunge_mailbox deletes find_deleted(uid_set, '
-            'selected)', 'EXPUNGE does not delete exactly the result of '
-            'find_deleted for its UID set: messages without \\Deleted (or '
-            'outside the UID set) can be removed')
-    # default: all (uid=True)
-    dflt = [s for s in walk_local(f.node) if isinstance(s, ast.Assign)
-            and txt(s.targets[0]) == 'uid_set']
-    okd = bool(dflt) and all(
-        'SequenceSet.all' in txt(s.value) for s in dflt) and all(
-        any(isinstance(t, ast.If) and guard_atoms(t.test) ==
-            [('uid_set', False)] for t in enclosing(f.node, s, (ast.If,)))
-        for s in dflt)
-    R.check(okd, f, f.node, 'expunge_mailbox: no UID set means all messages',
-            'the default UID set of EXPUNGE is not "all", or overrides a '
-            'given set')
+    # the set handed to find_deleted is the command's UID set, or "all" when
+    # (and only when) none was given
+    cfg = cfg_of(f)
+    okd = bool(fdcalls)
+    why = 'find_deleted call not found'
+    for v in fdcalls:
+        a0 = v.args[0]
+        defs = [(st, val) for st, val in local_assigns(f, a0.id)] \
+            if isinstance(a0, ast.Name) else []
+        vals = []
+        if isinstance(a0, ast.Name) and a0.id in f.params():
+            vals.append((None, a0))              # the parameter itself
+        for st, val in defs:
+            vals.append((st, val))
+        if not vals:
+            vals = [(None, a0)]
+        seen_all = False
+        for st, val in vals:
+            if val is None:
+                okd, why = False, f'{txt(a0)} is bound by {txt(st)}'
+                continue
+            if isinstance(val, ast.Name) and val.id == 'uid_set':
+                if st is not None and st is not None and any(
+                        runs_only_when(cfg, n, 'uid_set', False)
+                        for n in cfg.nodes_of(st)):
+                    okd, why = False, 'the given set is used when it is None'
+                continue
+            if isinstance(val, ast.Call) and txt(val.func) == \
+                    'SequenceSet.all' and const_value(kwarg(val, 'uid')) == (
+                        True, True):
+                seen_all = True
+                if st is None or not all(
+                        runs_only_when(cfg, n, 'uid_set', False)
+                        for n in cfg.nodes_of(st)):
+                    okd, why = False, ('"all" replaces the set although one '
+                                       'was given')
+                continue
+            okd, why = False, f'UID set is {txt(val)}'
+        if not seen_all:
+            okd, why = False, 'no default "all messages" set'
+    R.check(ok and okd, f, f.node, 'expunge_mailbox deletes '
+            'find_deleted(<given set, or all when none>, selected)',
+            f'EXPUNGE does not delete exactly the \\Deleted messages of its '
+            f'UID set ({why}): messages outside the set can be removed, or '
+            f'plain EXPUNGE does not cover the whole mailbox')
     mdi = ctx.proj.cls(BMBX, 'MailboxDataInterface')
     fd = mdi.own_method('find_deleted')
     if fd is None:
